@@ -24,7 +24,7 @@ func init() {
 			"uniform-constant exits/flags, pass-through to a consumer, append followed by a sort that dominates every later use) or order-sensitive (first-match return of an " +
 			"element-dependent value, ordered output, append without a sort, last-writer assignment, a branch decided by what earlier iterations accumulated). R14.1: no order-sensitive effect reaches an output; R14.2: each encoder's " +
 			"sort dominates its writes; R14.3: no formatted message embeds a pointer-like operand (heap address). Residual loops carry a per-function, per-effect justification " +
-			"frozen in the checker; anything unrecognised is undecided and fails.",
+			"frozen in the checker; anything unrecognised is undecided and fails. R14.4: comparators handed to sorts are lexicographic chains of symmetric comparisons with lexicographic discipline and without ambiguous concatenations; an unordered loop with two different early outcomes is order-sensitive.",
 		Assumptions: []string{"comparison functions passed to sorts are judged by shape (R14.4: lexicographic chain of symmetric comparisons, no ambiguous concatenations), not proved total", "errors returned by encoders/decoders are not outputs in the sense of the property"},
 		Run:         runC14,
 	})
